@@ -1,6 +1,7 @@
 package checks
 
 import (
+	ctok18 "github.com/pip-services3-gox/pip-services3-expressions-gox/calculator/tokenizers"
 	"fmt"
 	"strings"
 
@@ -400,6 +401,105 @@ func c18Template(c *fw.Ctx, seq []int) {
 	}
 }
 
+// ---- wide collections: k entries with distinct names plus pairs of names that differ only in letter
+// case at several positions; every lookup must find the FIRST matching entry, through the collection
+// and through an evaluation
+
+func c18Wide(c *fw.Ctx, k int, layout int, isFunc bool) {
+	if k < 2 {
+		k = 2 // (sizes next to small new integer literals)
+	}
+	names := distinctNames(k, 0)
+	// positions of the case-variant pair (lower first / upper first), by layout
+	pairs := [][2]int{{0, 1}, {0, k}, {k / 2, k/2 + 1}, {k - 1, k}, {1, 0}}[layout%5]
+	order := []string{}
+	for i := 0; i <= k; i++ {
+		switch i {
+		case pairs[0]:
+			order = append(order, "dup")
+		case pairs[1]:
+			order = append(order, "DUP")
+		}
+		if i < k {
+			order = append(order, names[i])
+		}
+	}
+	if layout%5 == 4 {
+		order[0], order[1] = "DUP", "dup"
+	}
+	vc := variables.NewVariableCollection()
+	fc := functions.NewFunctionCollection()
+	first := map[string]int{}
+	for i, n := range order {
+		i := i
+		if isFunc {
+			fc.Add(functions.NewDelegatedFunction(n, func([]*variants.Variant, variants.IVariantOperations) (*variants.Variant, error) {
+				return variants.VariantFromInteger(i + 1), nil
+			}))
+		} else {
+			vc.Add(variables.NewVariable(n, variants.VariantFromInteger(i+1)))
+		}
+		if _, ok := first[strings.ToUpper(n)]; !ok {
+			first[strings.ToUpper(n)] = i
+		}
+	}
+	kind := "VariableCollection"
+	if isFunc {
+		kind = "FunctionCollection"
+	}
+	few := names
+	if len(few) > 3 {
+		few = few[:3]
+	}
+	for _, q := range append([]string{"dup", "DUP", "Dup", strings.ToUpper(names[0]), names[k-1], names[k/2], "nosuch"}, few...) {
+		want, ok := first[strings.ToUpper(q)]
+		if !ok {
+			want = -1
+		}
+		var gi int
+		pv := fw.Try(func() {
+			if isFunc {
+				gi = fc.FindIndexByName(q)
+				if f := fc.FindByName(q); (f == nil) != (want < 0) || (f != nil && f != fc.Get(want)) {
+					gi = -2
+				}
+			} else {
+				gi = vc.FindIndexByName(q)
+				if v := vc.FindByName(q); (v == nil) != (want < 0) || (v != nil && v != vc.Get(want)) {
+					gi = -2
+				}
+			}
+		})
+		c.Eval(1)
+		if pv != nil || gi != want {
+			c.Violation("wide-collection-first-match", "%s with %d entries (names differing only in letter case at positions %v): lookup of %q finds index %d (-2: FindByName disagrees), the first matching entry is %d (panic %v)", kind, len(order), pairs, q, gi, want, pv)
+			return
+		}
+	}
+	// through an evaluation
+	calc := calculator.NewExpressionCalculator()
+	expr := "dup * 1000 + DUP"
+	if isFunc {
+		expr = "dup() * 1000 + DUP()"
+	}
+	if err := calc.SetExpression(expr); err == nil {
+		var r *variants.Variant
+		var err error
+		pv := fw.Try(func() {
+			if isFunc {
+				r, err = calc.EvaluateUsingVariablesAndFunctions(variables.NewVariableCollection(), fc)
+			} else {
+				r, err = calc.EvaluateUsingVariables(vc)
+			}
+		})
+		w := first["DUP"] + 1
+		if pv != nil || err != nil || r == nil || variantStr(r) != variantStr(variants.VariantFromInteger(w*1000+w)) {
+			c.Violation("wide-collection-first-match", "%s with %d entries: %q = %s (error %v, panic %v); both spellings resolve to entry %d, so %d expected", kind, len(order), expr, variantStr(r), err, pv, w-1, w*1000+w)
+		}
+	}
+	c.Nontrivial()
+}
+
 // ---- collections against an ordered-list model
 
 var c18Ops = []string{"Add(a)", "Add(A)", "Add(b)", "Locate(a)", "Locate(A)", "Locate(b)", "RemoveByName(a)", "RemoveByName(A)", "RemoveByName(b)", "Remove(0)", "Remove(1)", "Clear()", "ClearValues()", "Get(0).Value().SetAsInteger(n)", "Get(last).Value().SetAsInteger(n)"}
@@ -624,6 +724,43 @@ func init() {
 				eBin("-", eVar("b"), eBin("*", eCall("D"), eVar("a"))),
 			}
 			return []fw.Space{
+				{Name: "keyword-list-edited", N: 2, Run: func(c *fw.Ctx, i int64) {
+					// parser and calculator built under the default keyword list; LIKE is then dropped from the
+					// exported list: "like" is an identifier in variable position and must be discovered
+					p := parsers.NewExpressionParser()
+					calc := calculator.NewExpressionCalculator()
+					p.ParseString("a like b")
+					calc.SetExpression("a + 1")
+					saved := ctok18.Keywords
+					edited := []string{}
+					for _, k := range saved {
+						if k != "LIKE" {
+							edited = append(edited, k)
+						}
+					}
+					ctok18.Keywords = edited
+					defer func() { ctok18.Keywords = saved }()
+					var err error
+					var names []string
+					if i == 0 {
+						err = p.ParseString("like + 1")
+						names = p.VariableNames()
+					} else {
+						err = calc.SetExpression("like + 1")
+						names = c18Names(calc.DefaultVariables())
+					}
+					c.Eval(1)
+					c.Nontrivial()
+					has := false
+					for _, n := range names {
+						if strings.EqualFold(n, "like") {
+							has = true
+						}
+					}
+					if err != nil || !has || (i == 0 && len(names) != 1) {
+						c.Violation("identifier-not-discovered-after-keyword-list-edit", "object built before LIKE was dropped from the exported keyword list: \"like + 1\" gives error %v and variables %q; the identifier like is in variable position", err, names)
+					}
+				}, Repr: func(i int64) string { return "exported keyword list edited after construction, then \"like + 1\"" }},
 				{Name: "removed-during-evaluation", N: int64(len(missing)), Run: func(c *fw.Ctx, i int64) { c01Run(c, missing[i], tier) },
 					Repr: func(i int64) string { return fmt.Sprintf("expression %q where D() removes the variable a from the collection in use", missing[i].print(printStyle{})) }},
 				{Name: "expression-discovery", N: int64(len(trees) * 4), Run: func(c *fw.Ctx, i int64) { c18Expr(c, trees[i/4], int(i%4)) },
@@ -682,6 +819,11 @@ func init() {
 				}, Repr: func(i int64) string { return "two collections / calculators side by side" }},
 				{Name: "variable-collection", N: countStrings(k, depth), Run: func(c *fw.Ctx, i int64) { c18Collections(c, seqByIndex(k, i), false) },
 					Repr: func(i int64) string { return "VariableCollection [" + c18Hist(seqByIndex(k, i), c18Ops) + "]" }},
+				{Name: "wide-collections", N: int64(len(widthCounts) * 5 * 2), Run: func(c *fw.Ctx, i int64) {
+					c18Wide(c, widthCounts[int(i)/10], int(i)/2%5, i%2 == 1)
+				}, Repr: func(i int64) string {
+					return fmt.Sprintf("collection of %d distinct names plus a pair differing only in letter case (layout %d, functions: %v)", widthCounts[int(i)/10], i/2%5, i%2 == 1)
+				}},
 				{Name: "pumped-collection-histories", N: (countStrings(k, 2) - 1) * 5 * 2, Run: func(c *fw.Ctx, i int64) {
 					base := seqByIndex(k, 1+i/10)
 					n := []int{3, 9, 17, 65, 257}[i/2%5]
